@@ -18,7 +18,7 @@ import math
 from decimal import Decimal, getcontext
 from fractions import Fraction
 
-from .. import core
+from .. import core, history
 
 PID = "C02"
 THEOREMS = [
@@ -144,7 +144,10 @@ def _dtype_case(rng, nmax):
 
 def _case(rng, cls, nmax):
     if cls == "dtype":
-        return _dtype_case(rng, min(nmax, 6))
+        c = _dtype_case(rng, min(nmax, 6))
+        if rng.random() < 0.25:
+            c["layout"] = [rng.choice(LAYOUTS[:5]), rng.choice(LAYOUTS[:5] + (None,))]
+        return c
     kind = rng.choice(["grid", "rand"])
     m, n = rng.randint(0, nmax), rng.randint(0, nmax)
     S, T = _dgm(rng, m, kind), _dgm(rng, n, kind)
@@ -239,6 +242,41 @@ def _case(rng, cls, nmax):
         T = [sp() for _ in range(n)] if rng.random() < 0.6 else []
         if rng.random() < 0.5:
             S, T = T, S
+    elif cls == "thin":
+        var = rng.choice(["offset", "offset", "tiny", "neartie"])
+        if var == "offset":
+            # short bars far from the origin: persistence 3e-7..3e-4 of the coordinates (>= 300 x the tolerance),
+            # partners shifted by a fraction of the persistence, plus unpaired short bars
+            off = rng.choice([1e3, 1e4, 1e5, 1e6, 1024.0, 65536.0, -1e4, -1e5])
+            S, T = [], []
+            for _ in range(rng.randint(1, max(1, nmax // 2))):
+                p = abs(off) * 10 ** rng.uniform(-6.5, -3.5)
+                b = off + rng.uniform(-40, 40) * p
+                S.append([b, b + p])
+                if rng.random() < 0.8:
+                    T.append([b + rng.uniform(-.3, .3) * p, b + p + rng.uniform(-.3, .3) * p])
+            for _ in range(rng.randint(0, max(1, nmax // 2))):
+                p = abs(off) * 10 ** rng.uniform(-6.5, -3.5)
+                b = off + rng.uniform(-40, 40) * p
+                (S if rng.random() < 0.5 else T).append([b, b + p])
+            rng.shuffle(S)
+            rng.shuffle(T)
+        elif var == "tiny":
+            # a whole diagram in tiny units
+            k = rng.choice([1e-7, 1e-8, 1e-9, 1e-10, 2.0 ** -30, 2.0 ** -40, 1e-12])
+            S = [[a * k, b * k] for a, b in (S or _dgm(rng, 2, kind))]
+            T = [[a * k, b * k] for a, b in T]
+        else:
+            # two candidate partners whose costs differ by 1e-6..1e-4 relative, next to a cheap diagonal
+            S, T = [], []
+            for _ in range(rng.randint(1, max(1, nmax // 2))):
+                b, l = rng.uniform(-3, 3), rng.uniform(2, 6)
+                e = rng.uniform(.05, .5)
+                r = 1 + rng.choice([-1, 1]) * 10 ** rng.uniform(-6, -4)
+                S.append([b, b + l])
+                T.append([b + e, b + l])
+                T.append([b, b + l + e * r])
+            rng.shuffle(T)
     elif cls == "malformed":
         # births above deaths: negative diagonal cost in code and spec alike
         for dg in (S, T):
@@ -249,28 +287,163 @@ def _case(rng, cls, nmax):
     if all(not _is_nonfinite(d) and float(b).is_integer() and float(d).is_integer() and abs(b) < 2 ** 40 and abs(d) < 2 ** 40
            for dg in (S, T) for b, d in dg) and rng.random() < 0.5:
         case["as_int"] = True        # integer dtype arrays / lists of Python ints
+    if not case["as_list"] and rng.random() < 0.3:
+        # memory layout / container of the two arguments (same values)
+        case["layout"] = [rng.choice(LAYOUTS), rng.choice(LAYOUTS + (None,))]
     return case
 
 
 CLASSES = ["both_empty", "one_empty", "repeated", "identical", "diagonal", "infinite", "pythagorean", "mixed", "mixed",
-           "scale", "plain", "plain", "malformed", "repaired", "straddle", "dtype", "dtype"]
+           "scale", "plain", "plain", "malformed", "repaired", "straddle", "dtype", "dtype", "thin", "thin"]
+
+# ---- call histories (harness/history.py): all steps of one history run in one interpreter, equal-valued
+# arguments are the same objects, every step must satisfy the predicate of a single call
+STEP_CLASSES = ["plain", "mixed", "mixed", "diagonal", "repeated", "one_empty", "infinite", "thin", "both_empty"]
+FAULT_KINDS = ["nan_birth", "nan_birth", "neginf_birth", "posinf_birth", "nan_both", "one_column", "flat", "cube",
+               "strings", "none"]
+
+
+def _step(rng, nmax, cls=None, sizes=None):
+    """A clean single-call case used as a step (float64 ndarrays, occasionally lists)."""
+    c = _case(rng, cls or rng.choice(STEP_CLASSES), nmax)
+    if sizes is not None:
+        kind = rng.choice(["grid", "rand"])
+        c = {"cls": "sized", "S": _dgm(rng, sizes[0], kind), "T": _dgm(rng, sizes[1], kind), "as_list": False}
+    c.pop("layout", None)
+    c.pop("as_int", None)
+    c["as_list"] = rng.random() < 0.15
+    c["again"] = True
+    return c
+
+
+def _fault_step(rng, m, n, clean=None):
+    """A call persim is expected to reject AFTER it has started working (non-finite birth with a finite death:
+    the solver raises on the cost matrix) or before (malformed container).  With ``clean`` (a diagram of
+    another step) the other argument of the rejected call is that diagram - the same object, see _arg."""
+    fk = rng.choice(FAULT_KINDS)
+    S, T = _dgm(rng, max(1, m), "rand"), _dgm(rng, max(1, n), "rand")
+    c = {"cls": "fault:" + fk, "fault": True, "S": S, "T": T, "as_list": False}
+    side = rng.choice([0, 1])
+    if clean is not None and fk != "nan_both":
+        c["S" if side == 1 else "T"] = [list(p) for p in clean]
+        S, T = c["S"], c["T"]
+    dg = (S, T)[side]
+    j = rng.randrange(len(dg))
+    if fk == "nan_birth":
+        dg[j][0] = "nan"
+    elif fk == "neginf_birth":
+        dg[j][0] = "-inf"
+    elif fk == "posinf_birth":
+        dg[j][0] = "inf"
+    elif fk == "nan_both":
+        S[rng.randrange(len(S))][0] = "nan"
+        T[rng.randrange(len(T))][0] = "nan"
+    else:
+        c["shape"] = [fk if side == 0 else None, fk if side == 1 else None]
+    return c
+
+
+def _histories(rng, n, nmax=5):
+    hs = []
+    kinds = ["fault", "fault", "fault", "sizes", "pairwise", "slot"]
+    for h in range(n):
+        kind = kinds[h % len(kinds)]
+        if kind == "fault":
+            # clean calls, a rejected call on larger / smaller / differently split diagrams, clean calls again
+            steps = [_step(rng, nmax) for _ in range(rng.randint(0, 2))]
+            big = rng.random() < 0.7
+            after = [_step(rng, rng.choice([2, 3, nmax])) for _ in range(rng.randint(2, 4))]
+            # half of the rejected calls have one clean argument that later (and earlier) calls use as well
+            shared = rng.choice([x for st in steps + after for x in (st["S"], st["T"])] + [None] * 4) if rng.random() < 0.5 else None
+            steps.append(_fault_step(rng, rng.randint(3, 8) if big else rng.randint(1, 3),
+                                     rng.randint(3, 8) if big else rng.randint(1, 3), clean=shared))
+            if rng.random() < 0.3:
+                steps.append(_fault_step(rng, rng.randint(1, 8), rng.randint(1, 8)))
+            steps += after
+        elif kind == "sizes":
+            # the sizes (M,N) go down, change their split at the same M+N, and go up again
+            a, b = rng.randint(3, nmax), rng.randint(2, nmax)
+            seq = [(a, b), (max(0, a - 2), max(0, b - 1)), (b, a), (1, rng.randint(0, 2)), (a + b - min(a + b - 1, nmax), min(a + b - 1, nmax)),
+                   (0, rng.randint(1, 3)), (a, b)]
+            if rng.random() < 0.5:
+                seq = [(y, x) for x, y in seq]
+            steps = [_step(rng, nmax, sizes=sz) for sz in seq[:rng.randint(4, len(seq))]]
+        elif kind == "pairwise":
+            # a pairwise-distance loop over a small collection: the same objects in many calls, on both sides
+            k = rng.randint(3, 4)
+            coll = [_dgm(rng, rng.randint(0, nmax), rng.choice(["grid", "rand"])) for _ in range(k)]
+            if rng.random() < 0.5:
+                coll[rng.randrange(k)].append([rng.uniform(-2, 2), rng.choice(NONFINITE)])
+            pairs = [(i, j) for i in range(k) for j in range(k)]
+            rng.shuffle(pairs)
+            steps = [{"cls": "pair", "S": coll[i], "T": coll[j], "as_list": False, "again": True} for i, j in pairs[:6]]
+            if rng.random() < 0.5:
+                # one corrupt member in the collection: its pairs are rejected, the loop carries on
+                bad = _dgm(rng, rng.randint(2, nmax + 2), "rand")
+                bad[rng.randrange(len(bad))][0] = rng.choice(["nan", "nan", "-inf"])
+                for pos in sorted(rng.sample(range(1, len(steps)), min(2, len(steps) - 1)), reverse=True):
+                    i = rng.randrange(k)
+                    st = {"cls": "fault:pair", "fault": True, "S": bad, "T": coll[i], "as_list": False}
+                    if rng.random() < 0.5:
+                        st["S"], st["T"] = st["T"], st["S"]
+                    steps.insert(pos, st)
+        else:
+            # the caller keeps two buffers and overwrites their contents between calls (same objects, new values)
+            m, n2 = rng.randint(1, nmax), rng.randint(1, nmax)
+            steps = []
+            for t in range(rng.randint(3, 5)):
+                kd = rng.choice(["grid", "rand"])
+                c = {"cls": "slot", "S": _dgm(rng, m, kd), "T": _dgm(rng, n2, kd), "as_list": False, "again": True,
+                     "slots": ["a", "b"]}
+                if t and rng.random() < 0.4:
+                    c["S"] = [list(p) for p in steps[-1]["S"]]      # only one of the two buffers changes
+                steps.append(c)
+        hs.append(history.make(kind, steps))
+    return hs
+
+
+MODEL_MAX = 72       # the Coq enclosure is evaluated up to this many finite points in total; above: spec predicate only
+
+
+def _large_case(rng, m, n):
+    """Sizes just above typical block sizes (16, 32, 64, 128, 256): about half of T are moved copies of
+    S-points, the rest independent, so that the optimum mixes cross and diagonal pairings."""
+    S = _dgm(rng, m, "rand")
+    T = []
+    for p in S[:min(m, n) // 2]:
+        e = rng.choice([0.3, 0.02])
+        T.append([p[0] + rng.uniform(-e, e), p[1] + abs(rng.uniform(-e, e))])
+    T += _dgm(rng, n - len(T), "rand")
+    rng.shuffle(T)
+    if rng.random() < 0.5:
+        S, T = T, S
+    return {"cls": "large", "S": S, "T": T, "as_list": False}
 
 
 def generate(rng, tier):
     cases = []
     if tier == "quick":
-        for i in range(260):
+        cases.append(_large_case(rng, rng.choice([17, 18, 33, 34]), rng.choice([17, 19, 33, 35])))
+        cases.append(_large_case(rng, rng.choice([65, 67, 129, 131]), rng.choice([40, 65, 66])))
+        for i in range(266):
             cases.append(_case(rng, CLASSES[i % len(CLASSES)], rng.choice([2, 3, 4, 6, 6])))
+        cases += _histories(rng, 18)
     else:
         for i in range(5200):
             cases.append(_case(rng, CLASSES[i % len(CLASSES)], rng.choice([2, 3, 4, 6, 6, 6, 8])))
         for i in range(240):
             cases.append(_case(rng, CLASSES[i % len(CLASSES)], rng.choice([12, 18, 25])))
+        cases += _histories(rng, 240) + _histories(rng, 24, nmax=7)
+        for _ in range(12):
+            cases.append(_large_case(rng, rng.choice([17, 33, 34, 49]), rng.choice([17, 19, 33, 35])))
+        for _ in range(10):
+            cases.append(_large_case(rng, rng.choice([65, 67, 129, 131, 257, 260]), rng.choice([40, 65, 66, 129, 258])))
     return cases
 
 
 def search_generate(rng, n):
-    return [_case(rng, CLASSES[i % len(CLASSES)], rng.choice([1, 2, 3, 4])) for i in range(n)]
+    return ([_case(rng, CLASSES[i % len(CLASSES)], rng.choice([1, 2, 3, 4])) for i in range(n)]
+            + _histories(rng, max(6, n // 10), nmax=4))
 
 
 def corpus():
@@ -309,6 +482,102 @@ def corpus():
 
 
 # ------------------------------------------------------------------------------------ implementation
+LAYOUTS = ("F", "view_cols", "view_rows", "readonly", "neg_stride", "tuple")
+
+
+def _build_arg(c, dg, side):
+    """The argument object handed to persim for one diagram of a (single-call) case."""
+    import numpy as np
+
+    def lay(a):
+        # memory layouts of an (n,2) array with the same VALUES; only for non-empty ndarrays
+        L = c.get("layout")
+        if not L or not isinstance(a, np.ndarray) or a.ndim != 2 or a.shape[0] == 0:
+            return a
+        L = L[side] if isinstance(L, (list, tuple)) else L
+        if L == "F":
+            return np.asfortranarray(a)
+        if L == "view_cols":       # the first two columns of a wider buffer: an (n,2) view with row stride 3
+            w = np.full((a.shape[0], 3), 7.0 if a.dtype.kind == "f" else 7, dtype=a.dtype)
+            w[:, :2] = a
+            return w[:, :2]
+        if L == "view_rows":       # every other row of a taller buffer
+            w = np.full((2 * a.shape[0], 2), 5.0 if a.dtype.kind == "f" else 5, dtype=a.dtype)
+            w[::2, :] = a
+            return w[::2, :]
+        if L == "neg_stride":
+            return np.ascontiguousarray(a[::-1, :])[::-1, :]
+        if L == "readonly":
+            a = a.copy()
+            a.setflags(write=False)
+            return a
+        return a
+
+    if c.get("dtype") and all(not _is_nonfinite(d) for _, d in dg):
+        dt = np.dtype(c["dtype"][side])
+        vals = [[float(b), float(d)] for b, d in dg] if dt.kind == "f" else [[int(b), int(d)] for b, d in dg]
+        a = np.array(vals, dtype=dt).reshape(-1, 2) if dg else np.array([], dtype=dt)
+        if dg and [[float(x) for x in r] for r in a.tolist()] != [[float(b), float(d)] for b, d in dg]:
+            raise RuntimeError("harness: values %r are not representable in %s" % (dg, dt))
+        return lay(a)
+    if c.get("as_int") and all(not _is_nonfinite(d) and float(b).is_integer() and float(d).is_integer()
+                               for b, d in dg):
+        vals = [[int(b), int(d)] for b, d in dg]
+        return vals if c.get("as_list") else lay(np.array(vals, dtype=np.int64).reshape(-1, 2) if dg else np.array([], dtype=np.int64))
+    if c.get("as_list"):
+        return [[_f(b), _f(d)] for b, d in dg]
+    if c.get("layout") == "tuple" or (isinstance(c.get("layout"), (list, tuple)) and c["layout"][side] == "tuple"):
+        return tuple((_f(b), _f(d)) for b, d in dg)
+    return lay(np.array([[_f(b), _f(d)] for b, d in dg], dtype=float).reshape(-1, 2)) if dg else np.array([])
+
+
+def _fault_arg(c, dg, side):
+    """Arguments of a call that persim is expected to reject (steps of a history flagged "fault"): the
+    births are taken literally ("nan", "inf", "-inf" allowed), "shape" selects a malformed container."""
+    import numpy as np
+    sh = c.get("shape")
+    sh = sh[side] if isinstance(sh, (list, tuple)) else sh
+    a = np.array([[_f(b), _f(d)] for b, d in dg], dtype=float).reshape(-1, 2)
+    if sh == "one_column":
+        return a[:, :1]
+    if sh == "flat":
+        return a.ravel()
+    if sh == "cube":
+        return a.reshape(-1, 2, 1)
+    if sh == "strings":
+        return [["a", "b"] for _ in dg]
+    if sh == "none":
+        return None
+    return a
+
+
+def _arg(c, dg, side, memo):
+    """Equal-valued arguments of different steps of one history are THE SAME object; a step that names a
+    "slot" for a side re-uses that ndarray and overwrites its contents in place (the caller updating its
+    own buffer between calls)."""
+    import numpy as np
+    if c.get("fault"):
+        sh = c.get("shape")
+        sh = sh[side] if isinstance(sh, (list, tuple)) else sh
+        if sh or any(isinstance(b, str) for b, _ in dg):
+            return _fault_arg(c, dg, side)
+        # the well-formed argument of a rejected call: the same object as in the clean steps
+    slot = (c.get("slots") or [None, None])[side]
+    if slot is not None:
+        new = _build_arg(c, dg, side)
+        old = memo.get(("slot", slot))
+        if (isinstance(old, np.ndarray) and isinstance(new, np.ndarray) and old.shape == new.shape
+                and old.dtype == new.dtype and old.flags.writeable):
+            old[...] = new
+            return old
+        memo[("slot", slot)] = new
+        return new
+    lay = c.get("layout")
+    key = ["dgm", dg, (c.get("dtype") or [None, None])[side], bool(c.get("as_int")), bool(c.get("as_list")),
+           (lay[side] if isinstance(lay, (list, tuple)) else lay)]
+    return history.intern(memo, key, lambda: _build_arg(c, dg, side))
+
+
 def impl_run(cases):
     import sys
     import warnings
@@ -330,46 +599,91 @@ def impl_run(cases):
             return r
     real_opt = wmod.optimize
     wmod.optimize = _Opt()
-    outs = []
-    try:
-        for c in cases:
-            def arr(dg, side=0):
-                if c.get("dtype") and all(not _is_nonfinite(d) for _, d in dg):
-                    dt = np.dtype(c["dtype"][side])
-                    vals = [[float(b), float(d)] for b, d in dg] if dt.kind == "f" else [[int(b), int(d)] for b, d in dg]
-                    a = np.array(vals, dtype=dt).reshape(-1, 2) if dg else np.array([], dtype=dt)
-                    if dg and [[float(x) for x in r] for r in a.tolist()] != [[float(b), float(d)] for b, d in dg]:
-                        raise RuntimeError("harness: values %r are not representable in %s" % (dg, dt))
-                    return a
-                if c.get("as_int") and all(not _is_nonfinite(d) and float(b).is_integer() and float(d).is_integer()
-                                           for b, d in dg):
-                    vals = [[int(b), int(d)] for b, d in dg]
-                    return vals if c.get("as_list") else (np.array(vals, dtype=np.int64).reshape(-1, 2) if dg else np.array([], dtype=np.int64))
-                if c.get("as_list"):
-                    return [[_f(b), _f(d)] for b, d in dg]
-                return np.array([[_f(b), _f(d)] for b, d in dg], dtype=float).reshape(-1, 2) if dg else np.array([])
 
-            def call():
-                o = {}
-                del calls[:]
-                with warnings.catch_warnings(record=True) as w:
-                    warnings.simplefilter("always")
-                    d0 = wfun(arr(c["S"], 0), arr(c["T"], 1))
-                    o["warn"] = [any("dgm1" in str(x.message) for x in w if "non-finite" in str(x.message)),
-                                 any("dgm2" in str(x.message) for x in w if "non-finite" in str(x.message))]
-                o["dist"] = float(d0)
-                o["oracle"] = _monitor(calls)
+    def impl_call(c, memo):
+        """One case = the call with matching=False (value, warnings, solver monitor) and the call with
+        matching=True, both on the same argument objects."""
+        def call():
+            o = {}
+            del calls[:]
+            A, B = _arg(c, c["S"], 0, memo), _arg(c, c["T"], 1, memo)
+            if isinstance(A, np.ndarray) and isinstance(B, np.ndarray) and not c.get("fault"):
+                before = (A.tobytes(), B.tobytes(), A.shape, B.shape)
+            else:
+                before = None
+            with warnings.catch_warnings(record=True) as w:
+                warnings.simplefilter("always")
+                d0 = wfun(A, B)
+                o["warn"] = [any("dgm1" in str(x.message) for x in w if "non-finite" in str(x.message)),
+                             any("dgm2" in str(x.message) for x in w if "non-finite" in str(x.message))]
+            o["dist"] = float(d0)
+            o["oracle"] = _monitor(calls)
+            with warnings.catch_warnings():
+                warnings.simplefilter("ignore")
+                d1, rows = wfun(A, B, matching=True)
+            o["dist_m"] = float(d1)
+            rows = np.asarray(rows, dtype=float).reshape(-1, 3)
+            o["rows"] = [[float(r[0]), float(r[1]), float(r[2])] for r in rows]
+            if c.get("again"):
+                # the identical call once more, after the matching=True call, on the same objects
                 with warnings.catch_warnings():
                     warnings.simplefilter("ignore")
-                    d1, rows = wfun(arr(c["S"], 0), arr(c["T"], 1), matching=True)
-                o["dist_m"] = float(d1)
-                rows = np.asarray(rows, dtype=float).reshape(-1, 3)
-                o["rows"] = [[float(r[0]), float(r[1]), float(r[2])] for r in rows]
-                return o
-            outs.append(core.guarded(call))
+                    o["dist_again"] = float(wfun(A, B))
+            if before is not None and before != (A.tobytes(), B.tobytes(), A.shape, B.shape):
+                # not a property failure by itself (the next step of the history shows the consequence);
+                # recorded for the replay file only
+                o["args_modified"] = True
+            return o
+        return core.guarded(call)
+
+    outs = [None] * len(cases)
+    try:
+        # every history runs in its own forked copy of THIS interpreter as it is now (persim imported, no call
+        # made yet), so that what a history reports depends on its own steps only and its replay file
+        # reproduces it; the single-call cases then run one after the other in this process, as before
+        for i, c in enumerate(cases):
+            if history.is_hist(c):
+                outs[i] = _isolated(lambda c=c: history.run(c, impl_call))
+        for i, c in enumerate(cases):
+            if not history.is_hist(c):
+                outs[i] = impl_call(c, {})
     finally:
         wmod.optimize = real_opt
     return outs
+
+
+def _isolated(fn):
+    """fn() in a forked child; the JSON-able result comes back through a pipe."""
+    import json
+    import os
+    import sys
+    if not hasattr(os, "fork"):
+        return fn()
+    sys.stdout.flush()
+    sys.stderr.flush()
+    r, w = os.pipe()
+    pid = os.fork()
+    if pid == 0:
+        code = 0
+        try:
+            os.close(r)
+            try:
+                data = json.dumps(fn())
+            except BaseException as e:  # noqa
+                data = json.dumps({"error": "harness-child", "msg": repr(e)[:300]})
+            with os.fdopen(w, "w") as f:
+                f.write(data)
+        except BaseException:  # noqa
+            code = 1
+        finally:
+            os._exit(code)
+    os.close(w)
+    with os.fdopen(r, "r") as f:
+        data = f.read()
+    _, status = os.waitpid(pid, 0)
+    if not data:
+        return {"error": "harness-child", "msg": "child process ended with status %r and no result" % (status,)}
+    return json.loads(data)
 
 
 def _monitor(calls):
@@ -555,6 +869,8 @@ def _dec(fr):
 
 
 def predicate(c, o):
+    if history.is_hist(c):
+        return history.predicate(c, o, predicate)
     if "error" in o:
         return False, "error: %s" % o
     d = o["dist"]
@@ -567,6 +883,11 @@ def predicate(c, o):
             d, str(want)[:24], float(abs(Decimal(d) - want)), float(tol))
     if "dist_m" in o and abs(Decimal(o["dist_m"]) - Decimal(d)) > tol:
         return False, "flag: matching=True returns %r, matching=False %r" % (o["dist_m"], d)
+    if "dist_again" in o:
+        d2 = o["dist_again"]
+        if not (isinstance(d2, float) and math.isfinite(d2)) or abs(Decimal(d2) - want) > tol:
+            return False, "again: the same call repeated on the same objects returns %r, minimum over all partial matchings is %s" % (
+                d2, str(want)[:24])
     if "warn" in o:
         exp = [any(_is_nonfinite(x[1]) for x in c["S"]), any(_is_nonfinite(x[1]) for x in c["T"])]
         if list(o["warn"]) != exp:
@@ -577,10 +898,12 @@ def predicate(c, o):
     return True, ""
 
 
-EDGE = ("both_empty", "one_empty", "repeated", "identical", "diagonal", "infinite", "dtype")
+EDGE = ("both_empty", "one_empty", "repeated", "identical", "diagonal", "infinite", "dtype", "thin")
 
 
 def nontrivial(c, o):
+    if history.is_hist(c):
+        return history.nontrivial(c, o, nontrivial)
     if "error" in o:
         return False
     if c.get("cls") in EDGE:
@@ -743,6 +1066,13 @@ def coq_judge(cases, outs, results):
     verdicts = ["disagree:not-expressible (exception or non-finite value: %s)" % str(o)[:120] for o in outs]
     terms, idx = [], []
     for i, (c, o) in enumerate(zip(cases, outs)):
+        if history.is_hist(c):
+            # every step is judged by the spec predicate; the model is a function of one call's arguments
+            verdicts[i] = "skip:history (every step is judged by the spec predicate)"
+            continue
+        if len(c["S"]) + len(c["T"]) > MODEL_MAX:
+            verdicts[i] = "skip:size (more than %d points: spec predicate only)" % MODEL_MAX
+            continue
         t = check_term(c, o)
         if t is not None:
             terms.append(t)
@@ -784,6 +1114,11 @@ def wass_cert_verdicts(cases, outs, pid="C06"):
 
 # ------------------------------------------------------------------------------------ shrinking
 def shrink_candidates(c):
+    if history.is_hist(c):
+        yield from history.shrink(c)
+        if len(c["seq"]) == 1 and not c["seq"][0].get("fault"):
+            yield c["seq"][0]          # one step left: not a history effect, report the single call
+        return
     for key in ("S", "T"):
         for i in range(len(c[key])):
             d = dict(c)
@@ -794,6 +1129,10 @@ def shrink_candidates(c):
             d = dict(c)
             d[key] = False
             yield d
+    if c.get("layout"):
+        d = dict(c)
+        d.pop("layout")
+        yield d
     if c.get("dtype"):
         for side in (0, 1):
             if c["dtype"][side] != "float64":
